@@ -32,6 +32,7 @@ func propC11(c *Ctx) {
 	if m := c.E1Base(); m != nil {
 		c.ruleC11Paren(m)
 		c.ruleOpenTransparent(m, "C11-OPEN-TRANSPARENT")
+		c.ruleCommentBeforeOpen("C11-COMMENT-BEFORE-OPEN")
 		c.ruleEOFAsEOL(m, c.Analysis(stackK, false)) // a context opened at the very end of an included file is closed by the including one
 	}
 }
